@@ -24,6 +24,7 @@ type line struct {
 	Err     string           `json:"err,omitempty"`
 	WallUS  int64            `json:"wallUS"`
 	Sample  *harness.Case    `json:"sample,omitempty"`
+	Known   string           `json:"known,omitempty"`
 }
 
 func main() {
@@ -58,6 +59,8 @@ func main() {
 	if *minimise != "" {
 		os.Exit(doMinimise(*minimise, *minout, *budget))
 	}
+	known := harness.LoadKnown("/verif/known_findings.json")
+	knownHits := map[string]int{}
 	deadline := time.Now().Add(*budget)
 	viol := 0
 	n := 0
@@ -89,9 +92,34 @@ func main() {
 			l.Sample = c
 		}
 		if out.Violation != nil {
-			viol++
-			if *outdir != "" {
-				l.Replay = writeReplay(*outdir, c, out)
+			matched := ""
+			for i := range known {
+				if known[i].Matches(*prop, out.Violation) {
+					matched = known[i].ID
+					break
+				}
+			}
+			if matched != "" {
+				// a known finding does not end the search; after a few hits the
+				// generator stops drawing its trigger
+				knownHits[matched]++
+				l.Known = matched
+				if knownHits[matched] >= 4 {
+					for i := range known {
+						if known[i].ID == matched {
+							for key, want := range known[i].Trigger {
+								if want == "true" {
+									harness.AvoidTriggers[key] = true
+								}
+							}
+						}
+					}
+				}
+			} else {
+				viol++
+				if *outdir != "" {
+					l.Replay = writeReplay(*outdir, c, out)
+				}
 			}
 		}
 		enc.Encode(l)
